@@ -94,9 +94,38 @@ def case(draw, tier="quick"):
             atl = lv
         tick = t0 + sgn
         size = round(s0 + x, 2)
+    vwap_border = (not vwap_cut) and draw(st.integers(0, 7)) == 0
+    if vwap_border:
+        # directed: fill-or-kill through the best price over three levels whose exact volume-weighted price misses the
+        # limit by 0.0055-0.009 (rounds to one cent beyond the limit): the third level must be refused and the order
+        # killed, however the running average happened to round on the way
+        t0 = max(12, min(nt - 13, mid))
+        a_, b_ = draw(st.integers(2, 6)), draw(st.integers(1, 3))
+        c_ = b_ + draw(st.integers(1, 4))
+        L_ = prices[t0]
+        p0, p1, p2 = prices[t0 - sgn * a_], prices[t0 + sgn * b_], prices[t0 + sgn * c_]
+        s0 = gen.size_c(draw, 500, 3000) / 100
+        bound = s0 * abs(p0 - L_) / abs(L_ - p1)
+        s1 = max(0.01, round(bound * draw(st.sampled_from([0.3, 0.5, 0.7, 0.9])), 2))
+        delta = draw(st.sampled_from([0.0055, 0.006, 0.007, 0.009]))
+        tgt = L_ - delta if side == "BACK" else L_ + delta
+        s2 = round(abs(p0 * s0 + p1 * s1 - tgt * (s0 + s1)) / abs(tgt - p2), 2)
+        if s2 >= 0.01:
+            lv = [[t0 - sgn * a_, s0], [t0 + sgn * b_, s1], [t0 + sgn * c_, round(s2 + draw(st.sampled_from([0, 0, 5.0])), 2)]]
+            if side == "BACK":
+                atb = lv
+            else:
+                atl = lv
+            tick = t0
+            size = round(s0 + s1 + s2, 2)
+        else:
+            vwap_border = False
     op = {"op": "place", "r": ri, "side": side, "type": "LIMIT", "tick": tick, "size": size,
           "pers": draw(st.sampled_from(["LAPSE", "PERSIST"]))}
-    if vwap_cut:
+    if vwap_border:
+        op["tif"] = "FILL_OR_KILL"
+        op["min_fill"] = draw(st.sampled_from([None, None, round(s0 + s1 + 0.01, 2)]))
+    elif vwap_cut:
         op["tif"] = "FILL_OR_KILL"
         op["min_fill"] = draw(st.sampled_from([None, size, round(s0 + 0.01, 2), round(size - 0.01, 2)]))
     elif draw(st.integers(0, 1)):
